@@ -238,8 +238,9 @@ class Gen:
             rep("ext", v, "kp:ext-variant" if ok_variant else "kp:ext-wrong")
         for v in (None, ["http://a.example.com"], ["wss://a.example.com", "nope"], ["wss://a.example.com", "ws://b.example.org:81/x"], [""]):
             rep("relays", v, "kp:relays-variant")
-        for v in (["$REFU"], ["$REFX"], [""], None, ["$REF", "$REF"], ["abc"], ["zz"], ["00"]):
-            rep("i", v, "kp:i-mismatch" if v in (["$REFX"], ["00"]) else "kp:i-variant")
+        for v in (["$REFU"], ["$REFX"], [""], None, ["$REF", "$REF"], ["abc"], ["zz"], ["00"], ["$REFP"], ["$REFQ"], ["$REFE"]):
+            # a reference of the wrong LENGTH (a proper prefix of the real one, the real one plus a byte) does not match either
+            rep("i", v, "kp:i-mismatch" if v in (["$REFX"], ["00"], ["$REFP"], ["$REFQ"], ["$REFE"]) else "kp:i-variant")
         for v in (["hex"], ["BASE64"], ["Base64"], [""], None, ["base64", "x"], ["base32"], ["base64 "]):
             rep("encoding", v, "kp:enc-nonbase64" if v in (["hex"], [""], None, ["base32"], ["base64 "]) else "kp:enc-variant")
         out.append(self.case("kp:enc-variant", self.kp_op(B[:-1] + [("encoding", ["hex"]), ("encoding", ["base64"])])))
